@@ -56,7 +56,8 @@ fn lexicase_replay() {
         assert!(Lexicase::new(cases).select(&pop, &mut rng).is_err(), "lexicase on an empty population must report an error");
         return;
     }
-    let m = r[0].len();
+    // LEX_CONFIGURED: the selector is configured with fewer cases than the individuals hold results (only the first m count)
+    let m = std::env::var("LEX_CONFIGURED").ok().and_then(|s| s.parse::<usize>().ok()).unwrap_or(r[0].len()).min(r[0].len());
     let allowed: Vec<usize> = {
         let mut a: Vec<usize> = permutations(m).iter().flat_map(|s| survivors(&r, s, reverse)).collect();
         a.sort();
